@@ -110,7 +110,9 @@ class Prop:
                 toks.append(rng.choice(["-", "-1", "(2)", "|"]))
         return {"clock": rng.choice(["test", "historical"]), "string": "".join(toks), "timespan": rng.choice([1, 10, 10, 0.5, 0.1]),
                 "shift": rng.choice([0, 0, 0, 5, 0.5]), "lookup": rng.random() < 0.4, "form": rng.choice(["parse", "from_marbles", "cold", "hot"]),
-                "raise_stopped": rng.random() < 0.5, "sub_t": 203.25, "horizon": 1000}
+                "raise_stopped": rng.random() < 0.5, "sub_t": 203.25, "horizon": 1000,
+                # delivery forms: optionally a second, overlapping subscriber of the same observable, and an early unsubscription of the first
+                "sub2_off": rng.choice([None, None, 0.75, 3, 12.5, 40]), "unsub1_after": rng.choice([None, None, None, 2.25, 15, 33])}
 
     def execute(self, sc):
         out = Outcome()
@@ -154,7 +156,14 @@ class Prop:
                 box["obs"] = "ValueError"
 
         w.at(t_create, create)
-        w.at(sub_t, lambda: rec.subscribe(box["obs"]) if box.get("obs") not in (None, "ValueError") else None)
+        subs = [(sub_t, sc.get("unsub1_after"))]
+        if sc.get("sub2_off") is not None:
+            subs.append((sub_t + sc["sub2_off"], None))
+        recs = [vt.Recorder(w, "r%d" % i, follow=False) for i in range(len(subs))]
+        for r_, (t_, un_) in zip(recs, subs):
+            w.at(t_, (lambda r_=r_: r_.subscribe(box["obs"]) if box.get("obs") not in (None, "ValueError") else None))
+            if un_ is not None:
+                w.at(t_ + un_, (lambda r_=r_: r_.dispose() if r_.sub is not None else None))
         w.run(sc["horizon"])
         out.sim_time = sc["horizon"]
         if want == "ValueError":
@@ -165,22 +174,33 @@ class Prop:
         if box.get("obs") == "ValueError":
             out.bad("parse-mismatch", "%s: ValueError for a well-formed diagram" % desc)
             return out
-        if sc["form"] == "hot":
-            exp = [(t_create + t, k, v) for t, k, v in want if t_create + t > sub_t]
-        else:
-            exp = [(sub_t + t, k, v) for t, k, v in want]
-        cut = next((i for i, e in enumerate(exp) if e[1] in "CE"), None)
-        if cut is not None:
-            exp = exp[:cut + 1]
-        got = [(t, k, vt.vkey(v) if k == "N" else None) for _, t, k, v in rec.events]
-        exp = [(float(t), k, vt.vkey(v) if k == "N" else None) for t, k, v in exp]
-        out.nontrivial = len(got) >= 2
-        g = vt.grammar_violation(rec)
-        if g:
-            out.bad("grammar", "%s: %s" % (desc, g))
-        if got != exp:
-            out.bad("delivery-mismatch", "%s: delivered %s, expected %s" % (desc, got[:10], exp[:10]))
-        out.info = {"string": s, "timespan": ts, "form": sc["form"], "delivered": len(got)}
+        for i, (rec, (t_sub, un_)) in enumerate(zip(recs, subs)):
+            tag = desc if i == 0 else "%s [second subscriber, %s after the first%s]" % (desc, sc["sub2_off"], (", which unsubscribes after %s" % subs[0][1]) if subs[0][1] is not None else "")
+            if sc["form"] == "hot":
+                exp = [(t_create + t, k, v) for t, k, v in want if t_create + t > t_sub]
+            else:
+                exp = [(t_sub + t, k, v) for t, k, v in want]
+            cut = next((j for j, e in enumerate(exp) if e[1] in "CE"), None)
+            if cut is not None:
+                exp = exp[:cut + 1]
+            got = [(t, k, vt.vkey(v) if k == "N" else None) for _, t, k, v in rec.events]
+            exp = [(float(t), k, vt.vkey(v) if k == "N" else None) for t, k, v in exp]
+            if un_ is not None:
+                t_un = t_sub + un_
+                if any(e[0] == t_un for e in exp):
+                    exp = None  # an event at the very instant of the unsubscription: either outcome
+                else:
+                    exp = [e for e in exp if e[0] < t_un]
+            if i == 0:
+                out.nontrivial = len(got) >= 2
+            else:
+                out.probes["second_subscriber_checked"] += 1
+            g = vt.grammar_violation(rec)
+            if g:
+                out.bad("grammar", "%s: %s" % (tag, g))
+            if exp is not None and got != exp:
+                out.bad("delivery-mismatch", "%s: delivered %s, expected %s" % (tag, got[:10], exp[:10]))
+        out.info = {"string": s, "timespan": ts, "form": sc["form"], "delivered": len(recs[0].events)}
         return out
 
     def signature(self, sc, rule, msg):
